@@ -67,8 +67,13 @@ class PatchConflict(BzrError):
             patch_line: Expected line content from patch.
         """
         self.line_no = line_no
-        self.orig_line = orig_line.rstrip("\n")
-        self.patch_line = patch_line.rstrip("\n")
+        # Patch lines are bytes; tolerate str for callers that decode first.
+        self.orig_line = orig_line.rstrip(
+            b"\n" if isinstance(orig_line, bytes) else "\n"
+        )
+        self.patch_line = patch_line.rstrip(
+            b"\n" if isinstance(patch_line, bytes) else "\n"
+        )
 
 
 class MalformedHunkHeader(PatchSyntax):
